@@ -7,7 +7,7 @@
 From Coq Require Import List NArith ZArith QArith Bool Permutation.
 From Similari Require Import Base.Num Model.Constraints Model.Tracker
      Proofs.TrackerBase Proofs.TrackerPredict Proofs.TrackerInv Proofs.TrackerC01 Proofs.TrackerC03 Proofs.TrackerGc
-     Proofs.TrackerSolver.
+     Proofs.TrackerSolver Proofs.TrackerVisual.
 Import ListNotations.
 Open Scope N_scope.
 
@@ -127,6 +127,65 @@ Section C03.
       map obs (fst (trun (SetAutoWaste p1 :: ops))) = map obs (fst (trun (SetAutoWaste p2 :: ops))).
   Proof. exact (periodicity_unobservable_lemma G D2R solve c). Qed.
 End C03.
+
+Theorem trun_reaches_c03 :
+  forall G D2R solve c ops, NoDup (ops_uids ops) -> reach G D2R solve c (snd (trun G D2R solve c ops)).
+Proof. exact trun_reach. Qed.
+
+(* THE VISUAL TRACKERS (see Props/C01.v): run by [trun_visual] (their own translated prologue) with ANY association passing
+   the interface check.  The lifecycle theorems above hold for them verbatim. *)
+Theorem theorems_apply_to_visual_trackers :
+  forall G D2R f c ops, NoDup (ops_uids ops) ->
+    let solve := given_solver f in
+    let st := snd (trun_visual G D2R solve c ops) in
+    let outs := fst (trun_visual G D2R solve c ops) in
+    (* conservation *)
+    (Permutation (g_submitted st) (concat (map g_dets (all_tracks st)))
+     /\ NoDup (concat (map g_dets (all_tracks st)))
+     /\ Forall (fun t => t_len t = N.of_nat (length (g_dets t))) (all_tracks st))
+    (* one place *)
+    /\ Permutation (map t_id (live st) ++ map t_id (wasted st) ++ map t_id (g_delivered st) ++ map t_id (g_cleared st))
+                   (issued (next_id st))
+    (* delivered once *)
+    /\ (g_delivered st = wasted_outputs outs /\ NoDup (map t_id (wasted_outputs outs)))
+    (* expiry: what wasted() hands out *)
+    /\ (forall l st', tstep_visual G D2R solve c st Wasted = (OWasted l, st') ->
+          (forall t, In t l <-> In t (live st ++ wasted st) /\ t_last t + max_idle c < epoch_of (epochs st) (t_scene t))
+          /\ wasted st' = [])
+    (* expired never continued *)
+    /\ (forall scene dets recs st', tstep_visual G D2R solve c st (Predict scene dets) = (ORecords recs, st') ->
+          forall t, In t (live st ++ wasted st) -> expired c (epochs st') t = true ->
+            In t (live st' ++ wasted st') /\ ~ In (t_id t) (map r_id recs))
+    (* epochs *)
+    /\ (forall op s, epoch_of (epochs (snd (tstep_visual G D2R solve c st op))) s =
+                     match op with
+                     | Predict sc _ => if sc =? s then epoch_of (epochs st) s + 1 else epoch_of (epochs st) s
+                     | Skip sc n => if sc =? s then epoch_of (epochs st) s + n else epoch_of (epochs st) s
+                     | _ => epoch_of (epochs st) s
+                     end)
+    (* idle *)
+    /\ (forall s, tstep_visual G D2R solve c st (Idle s) =
+                  (OIdle (map rec_of (filter (fun t => (t_scene t =? s) && negb (expired c (epochs st) t)
+                                                       && negb (t_last t =? epoch_of (epochs st) s)) (live st))), st))
+    (* collection timing / periodicity unobservable *)
+    /\ (forall p1 p2 ops', forallb gc_state_op ops' = true -> NoDup (ops_uids ops') ->
+          map obs (fst (trun_visual G D2R solve c (SetAutoWaste p1 :: ops'))) =
+          map obs (fst (trun_visual G D2R solve c (SetAutoWaste p2 :: ops')))).
+Proof.
+  intros G D2R f c ops Hnd. cbn zeta. rewrite !trun_visual_eq.
+  pose proof (trun_reaches_c03 G D2R (given_solver f) c ops Hnd) as Hr.
+  split; [exact (conservation G D2R _ c _ Hr)|].
+  split; [exact (proj1 (one_place G D2R _ c _ Hr))|].
+  split; [exact (delivered_once G D2R _ c ops Hnd)|].
+  split.
+  { intros l st' H. rewrite tstep_visual_eq in H. destruct (expiry_exact G D2R _ c _ _ _ Hr H) as [A [_ B]]. split; assumption. }
+  split.
+  { intros scene dets recs st' H. rewrite tstep_visual_eq in H.
+    exact (expired_never_continued G D2R _ c (given_solver_sound_lemma f) _ _ _ _ _ Hr H). }
+  split; [intros op s; rewrite tstep_visual_eq; apply expiry_exact_epochs|].
+  split; [intro s; rewrite tstep_visual_eq; apply idle_spec|].
+  intros p1 p2 ops' Hall Hnd'. rewrite !trun_visual_eq. apply periodicity_unobservable; assumption.
+Qed.
 
 (* Non-vacuity.  max_idle = 0: the track started in call 1 expires with the (empty) call 2 and, with the default
    periodicity 100, stays UNCOLLECTED in the live store while idle / statistics / wasted observe the tracker;
